@@ -41,6 +41,9 @@ THEOREMS = [
     "Typedpy.C07.keep_undefined_leak_counterexample",
     "Typedpy.C07.inherited_closed_counterexample",
     "Typedpy.C07.closed_round_trip_example",
+    "Typedpy.C07.cache_transparent_nested",
+    "Typedpy.C07.history_transparent_nested",
+    "Typedpy.C07.cache_nested_example",
 ]
 RULE = ("class hierarchies (1-3 levels of single inheritance, fresh classes per case) with 1-7 Integer / nested "
         "fields (nested classes directly, in Array, in Set; nesting depth <= 3), per-class _serialization_mapper "
